@@ -125,8 +125,8 @@ struct pair {
         requires(is_assignable_v<first_type&, U1> and is_assignable_v<second_type&, U2>)
     constexpr auto operator=(pair<U1, U2>&& p) -> pair&
     {
-        first  = etl::move(p.first);
-        second = etl::move(p.second);
+        first  = etl::forward<U1>(p.first);
+        second = etl::forward<U2>(p.second);
         return *this;
     }
 
